@@ -247,6 +247,12 @@ func parseStackPCs(crash string) ([]uintptr, error) {
 			break
 		}
 
+		// The runtime elides the middle of very deep stacks (stack overflow)
+		// with a line of the form "...N frames elided...".
+		if symLine && strings.HasPrefix(line, "...") && strings.HasSuffix(line, " frames elided...") {
+			continue
+		}
+
 		// Expect a pair of lines:
 		//   SYMBOL(ARGS)
 		//   \tFILE:LINE +0xRELPC sp=0x%x fp=0x%x pc=0x%x
